@@ -154,8 +154,6 @@ fn component(text: &str, value: f64, unit: Unit) -> Duration {
     {
         return value * unit;
     }
-    // At most 18 fractional digits are used: that is finer than a nanosecond for all units and fits on an i128.
-    let fraction = &fraction[..fraction.len().min(18)];
     let unit_ns = (unit * 1).total_nanoseconds();
     let mut whole_ns: i128 = 0;
     for b in whole.bytes() {
@@ -163,13 +161,13 @@ fn component(text: &str, value: f64, unit: Unit) -> Duration {
             .saturating_mul(10)
             .saturating_add(i128::from(b - b'0'));
     }
-    let mut fraction_value: i128 = 0;
-    for b in fraction.bytes() {
-        fraction_value = fraction_value * 10 + i128::from(b - b'0');
+    // Nanoseconds of the fraction, truncated: the digits of (fraction digits x unit) above the decimal point of
+    // the fraction, by long multiplication from the least significant digit (exact for any number of digits).
+    let mut fraction_ns: i128 = 0;
+    for b in fraction.bytes().rev() {
+        fraction_ns = (i128::from(b - b'0') * unit_ns + fraction_ns) / 10;
     }
-    let total_ns = whole_ns
-        .saturating_mul(unit_ns)
-        .saturating_add(fraction_value * unit_ns / 10_i128.pow(fraction.len() as u32));
+    let total_ns = whole_ns.saturating_mul(unit_ns).saturating_add(fraction_ns);
     Duration::from_total_nanoseconds(if negative { -total_ns } else { total_ns })
 }
 
